@@ -379,11 +379,12 @@ func (r *reconstructor) reconstructBinaryValue(
 				return err
 			}
 
-			num := p.Num + 1
-
-			if num >= len(r.buffers) {
+			// The number comes from the peer: it must designate one of the attachments
+			// (`r.buffers[0]` is the payload). Checked before adding 1, which can overflow.
+			if p.Num < 0 || p.Num >= len(r.buffers)-1 {
 				return errInvalidPlaceholderNumValue
 			}
+			num := p.Num + 1
 
 			buf := r.buffers[num]
 
@@ -471,12 +472,14 @@ func (r *reconstructor) reconstructMap(rv reflect.Value) error {
 					}
 
 					if pholder.Kind() == reflect.Bool && pholder.Bool() && num.Kind() == reflect.Float64 {
-						n := int(num.Float())
-						n++
-
-						if n >= len(r.buffers) {
+						// The number comes from the peer: it must designate one of the attachments
+						// (`r.buffers[0]` is the payload). Checked as a float, since converting
+						// NaN, an infinity or a huge number to int gives an arbitrary result.
+						f := num.Float()
+						if !(f >= 0 && f < float64(len(r.buffers)-1)) {
 							return errInvalidPlaceholderNumValue
 						}
+						n := int(f) + 1
 
 						buf := r.buffers[n]
 						rv.SetMapIndex(mk, reflect.ValueOf(buf))
@@ -495,12 +498,14 @@ func (r *reconstructor) reconstructMap(rv reflect.Value) error {
 					}
 
 					if pholder.Kind() == reflect.Bool && pholder.Bool() && num.Kind() == reflect.Float64 {
-						n := int(num.Float())
-						n++
-
-						if n >= len(r.buffers) {
+						// The number comes from the peer: it must designate one of the attachments
+						// (`r.buffers[0]` is the payload). Checked as a float, since converting
+						// NaN, an infinity or a huge number to int gives an arbitrary result.
+						f := num.Float()
+						if !(f >= 0 && f < float64(len(r.buffers)-1)) {
 							return errInvalidPlaceholderNumValue
 						}
+						n := int(f) + 1
 
 						buf := r.buffers[n]
 						rv.SetMapIndex(mk, reflect.ValueOf(buf))
